@@ -875,5 +875,10 @@ func appendResourceSpecIfMissed(object metav1.Object, state *preFilterState, nod
 	if !shouldWriteBack {
 		return nil
 	}
+	// the object's own annotations may lack the spec the pod was scheduled with (a Reservation keeps it on its pod
+	// template, and its own annotations override the template's): keep the exclusive policy that was used
+	if resourceSpec.PreferredCPUExclusivePolicy == "" {
+		resourceSpec.PreferredCPUExclusivePolicy = state.preferredCPUExclusivePolicy
+	}
 	return extension.SetResourceSpec(object, resourceSpec)
 }
